@@ -236,6 +236,12 @@ pub fn fixture(prop: &'static str, seed: u64, f: u64, kind: PlannerKind, alpha_s
     scn.planner.search_radius = scn.planner.max_distance * rng.range(1.0, 3.0);
     scn.planner.connection_radius = ext * rng.range(0.3, 0.8);
     scn.planner.goal_bias = 0.0;
+    // a quarter of the fixtures use an UNSEEDED planner (`seed: None`, generator from OS entropy):
+    // with scripted samples, goal bias 0 and a fixed goal sample the generator decides nothing,
+    // so the run is still exactly repeatable while the unseeded code paths execute
+    if f % 4 == 3 {
+        scn.planner.seed = None;
+    }
     scn.clock = ClockSpec { tick_ns: 1000, cost_valid: vec![], cost_sample: vec![], cost_goal: vec![] };
     let mut geo = geo_for(&scn.space).unwrap();
     let anchors = vec![scn.problems[0].starts[0].clone(), scn.problems[0].goal.target.clone()];
